@@ -15,7 +15,7 @@ Definition oracle_total (o : tls_oracle) : Prop := to_kind o = 0 \/ to_kind o = 
 
 Definition code_ok (o : tls_oracle) (code : Z) : Prop :=
   In code all_error_codes
-  \/ code = EC_CRYPTO_ERROR + ALERT_unexpected_message
+  \/ (code = EC_CRYPTO_ERROR + ALERT_unexpected_message \/ code = EC_CRYPTO_ERROR + ALERT_decode_error)
   \/ (to_kind o = 1 /\ code = EC_CRYPTO_ERROR + to_val o)
   \/ (to_kind o = 2 /\ code = to_val o).
 
@@ -76,14 +76,14 @@ Qed.
 Lemma tls_message_outcome_good : forall st t,
   match tls_message_outcome st t with
   | TOk _ => True
-  | TAlert d => d = ALERT_unexpected_message \/ (to_kind (c_tls_oracle st) = 1 /\ d = to_val (c_tls_oracle st))
+  | TAlert d => (d = ALERT_unexpected_message \/ d = ALERT_decode_error) \/ (to_kind (c_tls_oracle st) = 1 /\ d = to_val (c_tls_oracle st))
   | TQErr code _ => to_kind (c_tls_oracle st) = 2 /\ code = to_val (c_tls_oracle st)
   | TExn _ => ~ oracle_total (c_tls_oracle st)
   end.
 Proof.
   intros. unfold tls_message_outcome.
-  destruct (c_tls_state st =? TLS_SERVER_POST_HANDSHAKE); [left; reflexivity|].
-  destruct ((c_tls_state st =? TLS_CLIENT_POST_HANDSHAKE) && negb (t =? 4)); [left; reflexivity|].
+  destruct (c_tls_state st =? TLS_SERVER_POST_HANDSHAKE); [left; left; reflexivity|].
+  destruct ((c_tls_state st =? TLS_CLIENT_POST_HANDSHAKE) && negb (t =? 4)); [left; left; reflexivity|].
   destruct (to_kind (c_tls_oracle st) =? 0) eqn:E0; [exact I|].
   destruct (to_kind (c_tls_oracle st) =? 1) eqn:E1; [right; split; [lia|reflexivity]|].
   destruct (to_kind (c_tls_oracle st) =? 2) eqn:E2; [split; [lia|reflexivity]|].
@@ -93,7 +93,7 @@ Qed.
 Lemma tls_reassemble_good : forall fuel st buf,
   match tls_reassemble fuel st buf with
   | TOk _ => True
-  | TAlert d => d = ALERT_unexpected_message \/ (to_kind (c_tls_oracle st) = 1 /\ d = to_val (c_tls_oracle st))
+  | TAlert d => (d = ALERT_unexpected_message \/ d = ALERT_decode_error) \/ (to_kind (c_tls_oracle st) = 1 /\ d = to_val (c_tls_oracle st))
   | TQErr code _ => to_kind (c_tls_oracle st) = 2 /\ code = to_val (c_tls_oracle st)
   | TExn _ => ~ oracle_total (c_tls_oracle st)
   end.
@@ -101,6 +101,7 @@ Proof.
   induction fuel as [|f IH]; intros; [exact I|].
   destruct buf as [|t [|l1 [|l2 [|l3 r]]]]; try exact I.
   cbn [tls_reassemble].
+  match goal with |- context[if ?c then _ else _] => destruct c end; [left; right; reflexivity|].
   match goal with |- context[if ?c then _ else _] => destruct c end; [exact I|].
   pose proof (tls_message_outcome_good st t) as G.
   destruct (tls_message_outcome st t); try exact G. apply IH.
@@ -146,7 +147,8 @@ Proof.
   pose proof (tls_reassemble_good (length (c_tls_buf st ++ out)) st (c_tls_buf st ++ out)) as G.
   destruct (tls_reassemble (length (c_tls_buf st ++ out)) st (c_tls_buf st ++ out)); simpl.
   - split; [reflexivity|lia].
-  - destruct G as [G|[G1 G2]]; subst; [right; left; reflexivity|right; right; left; split; [assumption|reflexivity]].
+  - destruct G as [[G|G]|[G1 G2]]; subst;
+      [right; left; left; reflexivity|right; left; right; reflexivity|right; right; left; split; [assumption|reflexivity]].
   - destruct G as [G1 G2]; subst. right; right; right. split; [assumption|reflexivity].
   - exact G.
 Qed.
@@ -477,7 +479,7 @@ Proof. repeat split. Qed.
 Definition ncid_witness_state : cst :=
   mkCst false 0 1048576 128 128 1048576 1048576 (-1) 8 0 8 10 7 10 8 TLS_SERVER_POST_HANDSHAKE
         (mkTlsOracle 0 0 0) [0; 1; 2; 3; 4; 5; 6; 7] [] [0; 1; 2; 3; 4; 5; 6; 7; 8; 10; 20] [] [] [] []
-        recv_init recv_init recv_init None.
+        recv_init recv_init recv_init None [].
 Definition ncid_witness_payload : list Z :=
   [24; 20; 11; 8; 20; 20; 20; 20; 20; 20; 20; 20; 0; 0; 0; 0; 0; 0; 0; 0; 0; 0; 0; 0; 0; 0; 0; 0].
 
